@@ -21,7 +21,8 @@ RULE = ('(a) every step of every calculation (also inside goal proofs, induction
         'FullSimplify / Simplify keep the value and are idempotent, deriv agrees with numeric differentiation, printing and parsing '
         'returns the same expression; definite integrals of these over [0,1], [1,2], [0,oo) with Linearity, DefiniteIntegralIdentity, '
         'SplitRegion, Substitution (u = 2x, x+1, x^2, 1/x, -x), SubstitutionInverse, IntegrationByParts (factor pairs), ElimInfInterval; '
-        'limits with LHopital / ReduceLimit. A step is a violation only if the two values differ by more than 1e-6 (relative) at an '
+        'limits with LHopital / ReduceLimit; derivatives of integrals with variable bounds; constructor-built negative constants printed and '
+        'parsed; thorough: integrands with two operators over three ranges with the parameter-free rules and three substitutions. A step is a violation only if the two values differ by more than 1e-6 (relative) at an '
         'admissible grid point, with quadrature error estimates below 1e-9, and the difference persists at 50 digits.')
 ASSUMPTIONS = ['mpmath evaluation with error estimates; values that cannot be computed reliably (divergent or slowly convergent '
                'integrals and series, unknown functions, complex values) make a step undecided, never a violation']
@@ -60,7 +61,7 @@ def cases(tier):
     for fam, n in gen_families(tier):
         # one expression per case for the simplification family: a case ends at its first violation, and a listed known
         # finding must not hide its neighbours
-        step = 1 if fam == 'simplify' else (10 if fam == 'integral' else 30)
+        step = 1 if fam == 'simplify' else (10 if fam == 'integral' else (5 if fam == 'integral2' else 30))
         for i in range(0, n, step):
             yield ['gen', fam, i, min(i + step, n)]
 
@@ -329,6 +330,29 @@ def gen_integrals(tier):
     return out
 
 
+def gen_integrals2(tier):
+    """thorough only: integrands with two operators, three ranges, the parameter-free rules and three substitutions"""
+    if tier != 'thorough':
+        return []
+    key = ('i2', tier)
+    if key in _G:
+        return _G[key]
+    one = set(gen_exprs(1))
+    bodies = [b for b in gen_exprs(2) if b not in one and 'x' in b and 'a' not in b]
+    out = ['INT x:[%s,%s]. %s' % (lo, hi, b) for b in bodies for lo, hi in (('0', '1'), ('1', '2'), ('0', 'oo'))]
+    _G[key] = out
+    return out
+
+
+def rules_for_integral2():
+    from integral import rules
+    rs = [('Linearity', rules.Linearity()), ('DefiniteIntegralIdentity', rules.DefiniteIntegralIdentity()), ('FullSimplify', rules.FullSimplify()),
+          ('SplitRegion 1/2', rules.SplitRegion('1/2')), ('ElimInfInterval', rules.ElimInfInterval()), ('ExpandPolynomial', rules.ExpandPolynomial())]
+    for g in ('2 * x', 'x + 1', 'x ^ 2'):
+        rs.append(('Substitution u = ' + g, rules.Substitution('u', g)))
+    return rs
+
+
 def gen_limits(tier):
     fs = ['sin(x)', 'x', '1 - cos(x)', 'exp(x) - 1', 'log(1 + x)', 'x ^ 2', 'atan(x)', 'x * exp(x)', 'sqrt(x + 1) - 1']
     out = []
@@ -378,7 +402,7 @@ def gen_constructed(tier):
 
 def gen_families(tier):
     return [('simplify', len(gen_exprs(bounds(tier)['generated_ops']))), ('integral', len(gen_integrals(tier))), ('limit', len(gen_limits(tier))),
-            ('leibniz', len(gen_leibniz(tier))), ('constructed', len(gen_constructed(tier)))]
+            ('leibniz', len(gen_leibniz(tier))), ('constructed', len(gen_constructed(tier))), ('integral2', len(gen_integrals2(tier)))]
 
 
 def rules_for_integral(e):
@@ -494,6 +518,25 @@ def run_gen(case, tier):
                     bad2, _ = apply_and_compare(new, 'FullSimplify after ' + rn, rules.FullSimplify(), ctx, npoints, s)
                     if bad2:
                         return bad2
+    elif fam == 'integral2':
+        ctx = context.Context()
+        ctx.load_book('base')
+        rs = rules_for_integral2()
+        for s in gen_integrals2(tier)[lo:hi]:
+            try:
+                e = parser.parse_expr(s)
+            except Exception:
+                continue
+            for rn, r in rs:
+                bad, new = apply_and_compare(e, rn, r, ctx, 3, s)
+                if bad:
+                    return bad
+                if new is not None and new != e:
+                    n_ok += 1
+                    if rn != 'FullSimplify':
+                        bad2, _ = apply_and_compare(new, 'FullSimplify after ' + rn, rules.FullSimplify(), ctx, 3, s)
+                        if bad2:
+                            return bad2
     elif fam == 'leibniz':
         ctx = context.Context()
         ctx.load_book('base')
